@@ -239,6 +239,56 @@ theorem M3_splice_list : ∀ (ks : List T) (i : Nat) (p : List Nat),
 end
 
 
+
+
+/-! ### name_lemma / L-name: strings of name characters (ASCII letters and `*`), for any notion of blank character
+    that contains no name character (Python's `str.strip` / `str.isspace`, the contracts' NW) -/
+
+variable {χ : Type} (isName ws : χ → Bool)
+
+/-- `str.strip()` as a list function: drop blanks on both sides -/
+def strip (s : List χ) : List χ := ((s.dropWhile ws).reverse.dropWhile ws).reverse
+
+/-- the contracts' NW: erase every blank character -/
+def NW (s : List χ) : List χ := s.filter (fun c => !ws c)
+
+theorem dropWhile_all_not {p : χ → Bool} : ∀ (s : List χ), (∀ c ∈ s, p c = false) → s.dropWhile p = s
+  | [], _ => rfl
+  | c :: s, h => by
+      have hc : p c = false := h c (by simp)
+      simp [List.dropWhile, hc]
+
+/-- name_lemma: a string of name characters has no blank and is unchanged by strip -/
+theorem name_lemma (hdisj : ∀ c, isName c = true → ws c = false) (s : List χ)
+    (hs : ∀ c ∈ s, isName c = true) : NW ws s = s ∧ strip ws s = s := by
+  have hws : ∀ c ∈ s, ws c = false := fun c hc => hdisj c (hs c hc)
+  constructor
+  · unfold NW
+    apply List.filter_eq_self.mpr
+    intro c hc
+    simp [hws c hc]
+  · unfold strip
+    rw [dropWhile_all_not s hws]
+    have hr : ∀ c ∈ s.reverse, ws c = false := fun c hc => hws c (List.mem_reverse.mp hc)
+    rw [dropWhile_all_not s.reverse hr, List.reverse_reverse]
+
+/-- L-name (1): a string of name characters contains no character that is not a name character (brace, bracket,
+    backslash, dollar, ...) -/
+theorem L_name_no_other (s : List χ) (hs : ∀ c ∈ s, isName c = true) (c : χ) (hc : isName c = false) : c ∉ s := by
+  intro hmem
+  have := hs c hmem
+  rw [hc] at this
+  exact Bool.noConfusion this
+
+/-- L-name (2): a string of name characters does not start with (nor equal) a literal that contains another
+    character: the delimiter literals `{ } [ ] $ $$ \( \) \[ \] \begin{ \end{` -/
+theorem L_name_no_prefix (s lit : List χ) (hs : ∀ c ∈ s, isName c = true)
+    (hl : ∃ c ∈ lit, isName c = false) : ¬ lit <+: s := by
+  intro hp
+  obtain ⟨c, hc, hn⟩ := hl
+  exact L_name_no_other isName s hs c hn (hp.subset hc)
+
+
 end TexSoupLemmas
 
 -- the axioms each mechanised lemma depends on (printed by `lean lemmas/Lemmas.lean`; expected: none beyond
@@ -250,3 +300,5 @@ end TexSoupLemmas
 #print axioms TexSoupLemmas.M4_partition
 #print axioms TexSoupLemmas.M5
 #print axioms TexSoupLemmas.M3_splice
+#print axioms TexSoupLemmas.name_lemma
+#print axioms TexSoupLemmas.L_name_no_prefix
